@@ -3,6 +3,9 @@ package main
 import (
 	"fmt"
 	"sort"
+	"sync"
+
+	"github.com/free5gc/go-upf/internal/forwarder"
 
 	"github.com/free5gc/go-upf/internal/verif/vh"
 )
@@ -225,13 +228,29 @@ func runC01(res *vh.Result) {
 	p := profiles["C01"]
 	res.Rule = rules["C01"]
 	res.Assumptions = append([]string{
+		"every fifth history runs on the real gtp5g driver over the simulated kernel (rule table = the kernel's); the others on the model data plane",
 		"fail-applied models a lost netlink acknowledgement (the rule is installed, an error is returned); removes never fail (outside the property's quantifier)",
 		"an Update/Remove/Query is judged at request granularity: the id must have been requested when the request arrived or be created by it",
 	}, commonAssume...)
 	total := vh.Tiered(400, 6000)
-	rn := &vh.Runner{}
+	rnModel := &vh.Runner{}
+	// every fifth history runs on the real gtp5g driver over the simulated kernel: the rule table that is
+	// compared with the model is then the kernel's, and the faults hit the real driver's call sites
+	rnFull := &vh.Runner{NewDriver: func() (forwarder.Driver, func() map[vh.RuleKey]int, func()) {
+		wg := &sync.WaitGroup{}
+		d, err := vh.NewSimDriver(vh.SimDriverOpts{WG: wg})
+		if err != nil {
+			panic("sim driver: " + err.Error())
+		}
+		return d.G, d.K.Table, func() { d.Close(); wg.Wait() }
+	}}
 	res.Cases(total, func(i int, rng *vh.Rng) {
 		h := vh.Generate(rng, p)
+		rn := rnModel
+		if i%5 == 4 {
+			rn = rnFull
+			res.Count("histories_on_real_driver", 1)
+		}
 		base := rn.Run(h, nil)
 		if faultCrash(res, i, "C01", h, nil, base) {
 			res.Eval("")
